@@ -661,7 +661,7 @@ pub fn template_bgp_seeds(specs: &[CodecSpec], out: &mut Vec<Seed>) {
         });
     }
     // ---- a long AS_PATH with extended length, and a large UPDATE close to 4096
-    {
+    if !cfg!(miri) {
         let mut path = Vec::new();
         for s in 0..2u32 {
             path.push(2u8);
@@ -950,7 +950,7 @@ pub fn encoder_bgp_seeds(specs: &[CodecSpec], out: &mut Vec<Seed>) {
         }
     }
     // a long announcement that the encoder has to split into several frames
-    let many: Vec<PathNlri> = (0..1500u32)
+    let many: Vec<PathNlri> = (0..if cfg!(miri) { 3u32 } else { 1500u32 })
         .map(|i| PathNlri { path_id: 0, nlri: Nlri::V4(Ipv4Net { addr: Ipv4Addr::new(10, (i >> 8) as u8, i as u8, 0), mask: 24 }) })
         .collect();
     let m = Message::Update(Update::Reach { family: Family::IPV4, entries: many, nexthop: nexthop_value(Family::IPV4), attr: Arc::new(attr_values()) });
